@@ -607,6 +607,12 @@ namespace bluetoe {
                     }
                     else if ( args.type == attribute_access_type::write )
                     {
+                        // just a check for write permissions, do not bother the handler
+                        if ( args.write_check )
+                            return has_write_access
+                                ? attribute_access_result::success
+                                : attribute_access_result::write_not_permitted;
+
                         return static_cast< attribute_access_result >(
                             invoke_write_handler< write_handler_type >::template call_write_handler< Server, ClientCharacteristicIndex >( args.buffer_offset, args.buffer_size, args.buffer, args.client_config, args.server ) );
                     }
